@@ -90,6 +90,11 @@ def gen(tier):
     for insts in clashes:
         for chain in (False, True):
             yield {"tag": "clash", "insts": insts, "chain": chain, "deps": [":base"], "run": False}
+    # two groups in different COND files (one depending on the other) whose instances have the same names
+    for k in (1, 2):
+        for chain in (False, True):
+            yield {"tag": "twofiles", "insts": [("e%d" % i, [], {"t": i}, False) for i in range(k)], "chain": chain, "deps": ["//q:g"],
+                   "run": True, "second_group": True}
     for raw in ('["e0"]', '[("e0", [], {}, False)]', "None", "5", '[ExperimentInstance(name="e0"), None]'):
         yield {"tag": "malformed", "insts": None, "raw": raw, "chain": False, "deps": None, "run": False}
 
@@ -156,6 +161,12 @@ def run_case(case, found, res):
         gsrc = group_src("g", "./exp.sh", None, case["chain"], case["deps"], raw_insts=case["raw"])
         esrc = None
     fg = {"COND": SUPPORT + gsrc, "p/COND": SUPPORT_P}
+    extra_g, extra_e = {}, {}
+    if case.get("second_group"):
+        # //q:g is itself a group with the same instance names
+        extra_g = {"q/COND": group_src("g", "./q.sh", case["insts"], case["chain"], None)}
+        extra_e = {"q/COND": expand_src("g", "./q.sh", case["insts"], bool(case["chain"]), None)}
+        fg.update(extra_g)
     art = {"case": case, "group": gsrc, "explicit": esrc}
 
     def viol(key, what):
@@ -169,6 +180,7 @@ def run_case(case, found, res):
             viol("malformed-accepted", "malformed experiments %s accepted" % case["raw"])
         return
     fe = {"COND": SUPPORT + esrc, "p/COND": SUPPORT_P}
+    fe.update(extra_e)
     b = load_graph(fe)
     if a[0] != b[0]:
         viol("accept-reject-disagree:%s" % case["tag"], "group form %s, explicit form %s\n%s\n%s" % (a, b[:1] + (b[1] if b[0] != "ok" else "",), gsrc, esrc))
